@@ -21,7 +21,9 @@ PROP = dict(
     bounds=dict(
         quick="real grid 24 values (+ per-function extras), complex grid 24x24 + 144 generic arguments + 18 near-cut points, exponents every "
               "k/2 in [-8,8] (real, int, scalar^array, array^array, array^scalar overloads), array lengths every 1..32, 100, 1000 and the "
-              "full grid; reductions 8 letters x real/complex x lengths 1..32,100,1000; upsample/downsample len<=12 x factor<=12 x phase<min; "
+              "full grid; reductions 14 letters (index, constant, alternating, two-level, LCG, max/min ties at "
+              "both ends, negative index, all +0, all -0, mixed signed zeros, a single non-zero element first / middle / last) x real/complex x "
+              "lengths 1..32,100,1000 with norm p in {default,1,2,3,4,8}; upsample/downsample len<=12 x factor<=12 x phase<min; "
               "linspace n=1..100 x 5 endpoint pairs; integer arange every (start,stop,step) in [-12,12]^3 and arange(stop) stop in [-12,12]; "
               "fractional arange 4 starts x 6 dyadic steps x count 0..20 (3 template instantiations); repelem len<=6 x n<=5; flip len<=12; "
               "zeropad len<=8 x pad<=8; delayseq (real) N<=10 x delay in [-12,12]",
@@ -32,7 +34,9 @@ PROP = dict(
         "negative real axis with im = -0 in {pi, -pi}; z^p = exp(p Log z), 0^p = 0 for p > 0; 0^p for p <= 0, negative real base with "
         "fractional exponent in the real overload, log of non-positive numbers and overflowing results (|ref| > 1e300) are not generated",
         "results below 1e-305 are compared absolutely (gradual underflow is not held against the library)",
-        "round at exact ties accepts either neighbour; argmin/argmax/min/max accept any position of a tie; complex min/max order by modulus; "
+        "round at exact ties accepts either neighbour; argmin/argmax/min/max accept any position of a tie (no first-occurrence rule), but "
+        "max(x) must be an element of maximal value/magnitude, agree in magnitude with x[argmax(x)] and in value when all maximal elements "
+        "are equal (likewise min); complex min/max order by modulus; "
         "complex dot accepts sum x*y, sum conj(x)*y or sum x*conj(y) (the library computes the bilinear form)",
         "stddev uses the n-1 normalisation (n >= 2 only), rms the n normalisation",
         "linspace(x1,x2,1) may be {x2} (MATLAB) or {x1}; its elements are compared at the scale max(|x1|,|x2|)",
